@@ -94,7 +94,12 @@ def scatter(spec, rng, nmod=None, nsplit=None):
             parts.append([lo, hi, dom, e, rng.randrange(nmod)])
         if parts:
             splits.append({"w": w, "init": rng.getrandbits(w), "parts": parts, "signed": rng.random() < 0.4})
-    return {"spec": spec.d, "tree": tree, "anon": anon, "place": place, "splits": splits}
+    mem = None
+    if spec.ni and rng.random() < 0.3:
+        pick = lambda: rng.randrange(spec.ni)
+        mem = {"mod": rng.randrange(nmod), "w": 4, "depth": rng.choice([2, 3, 4]), "wa": pick(), "wd": pick(), "we": pick(),
+               "ra": pick(), "transparent": rng.random() < 0.5, "init": [rng.getrandbits(4) for _ in range(4)]}
+    return {"spec": spec.d, "tree": tree, "anon": anon, "place": place, "splits": splits, "mem": mem}
 
 
 class BuiltDesign:
@@ -152,6 +157,27 @@ def build(design):
         o = Signal(sp["w"], name=f"outsplit{k}")
         mods[0].d.comb += o.eq(sig)
         d.outs.append((f"outsplit{k}", o, ("split", k)))
+    me = design.get("mem")
+    d.mem = None
+    if me:
+        from amaranth.lib.memory import Memory
+        mem = Memory(shape=me["w"], depth=me["depth"], init=me["init"][:me["depth"]])
+        mods[me["mod"]].submodules.mem = mem
+        wp = mem.write_port()
+        rc = mem.read_port(domain="comb")
+        mm = mods[me["mod"]]
+        ins = b0.sigs
+        mm.d.comb += [wp.addr.eq(ins[me["wa"]]), wp.data.eq(ins[me["wd"]]), wp.en.eq(ins[me["we"]]), rc.addr.eq(ins[me["ra"]])]
+        pl = [("outmemc", rc)]
+        if me.get("sync_read", True):
+            rs = mem.read_port(domain="sync", transparent_for=[wp] if me["transparent"] else [])
+            mm.d.comb += [rs.addr.eq(ins[me["ra"]]), rs.en.eq(1)]
+            pl.append(("outmems", rs))
+        for nm, port in pl:
+            o = Signal(me["w"], name=nm)
+            mods[0].d.comb += o.eq(port.data)
+            d.outs.append((nm, o, ("mem", nm)))
+        d.mem = mem
     return d
 
 
@@ -164,6 +190,9 @@ class Ref:
         self.base = S.RefState(self.spec)
         self.split = [sp["init"] & mask(sp["w"]) for sp in design["splits"]]
         self._comb_splits()
+        me = design.get("mem")
+        self.rows = list(me["init"][:me["depth"]]) if me else None
+        self.rdata = 0
 
     def _eval(self, e, vals):
         return X.ref_eval(e, self.spec.env, vals)
@@ -179,8 +208,24 @@ class Ref:
         self.base.set_inputs(ivals)
         self._comb_splits()
 
+    def _mem_in(self, key, w):
+        return self.base.vals[self.design["mem"][key]] & mask(w)
+
     def clock_edge(self, rst=0):
         pre = list(self.base.vals)
+        me = self.design.get("mem")
+        if me:
+            aw = max(me["depth"] - 1, 0).bit_length()
+            wa, ra = pre[me["wa"]] & mask(aw), pre[me["ra"]] & mask(aw)
+            wd, we = pre[me["wd"]] & mask(me["w"]), pre[me["we"]] & 1
+            if ra < me["depth"]:
+                self.rdata = self.rows[ra]
+                if me["transparent"] and we and wa == ra:
+                    self.rdata = wd
+            else:
+                self.rdata = None          # unspecified
+            if we and wa < me["depth"]:
+                self.rows[wa] = wd
         self.base.clock_edge(rst)
         for k, sp in enumerate(self.design["splits"]):
             for lo, hi, dom, e, mod in sp["parts"]:
@@ -191,6 +236,14 @@ class Ref:
         self._comb_splits()
 
     def value(self, key):
+        """-> int, or None where the documented behaviour is unspecified"""
         if isinstance(key, tuple):
+            if key[0] == "mem":
+                me = self.design["mem"]
+                if key[1] == "outmems":
+                    return self.rdata
+                aw = max(me["depth"] - 1, 0).bit_length()
+                ra = self.base.vals[me["ra"]] & mask(aw)
+                return self.rows[ra] if ra < me["depth"] else None
             return self.split[key[1]]
         return self.base.vals[key]
